@@ -193,7 +193,8 @@ def rule_r5(facts, col):
         carry = _carry_fields(facts, body)
         if not carry:
             continue
-        if not [1 for bb, t in body.calls() if t["f"].get("name") == "read" and t["f"].get("trait") == "std::io::Read"]:
+        if not [1 for b in [body] + adt_helpers(facts, body) for bb, t in b.calls()
+                if t["f"].get("name") == "read" and t["f"].get("trait") == "std::io::Read"]:
             continue
         content_reads = {}
         drops = []
